@@ -246,6 +246,40 @@ def run(case, rec):
             if t0_part != [k for k in P0[p] if k in t0_part]:
                 rec.fail("L2:T0-child-order", [list(p), t0_part, P0[p]])
 
+    # ---- L6b: reduce=True against a second, unreduced call (deterministic part only) ---------------
+    if reduce_:
+        full = t0.diff(t1, ordered=ordered, reduce=False)
+        wf = walk(full)
+        F = {}
+        for n in wf.pre:
+            pth, x = [], n
+            while x is not None:
+                pth.append(x.data)
+                x = wf.parent[id(x)]
+            F[tuple(reversed(pth))] = n
+        # Which of several T1-only occurrences of one label is re-classified as moved-here (and hence which
+        # removed occurrences become moved-away) depends on set iteration order: those labels are skipped.
+        from collections import Counter as _C
+
+        added_labels = _C(p[-1] for p in added_all)
+        ambiguous = {lab for lab, c in added_labels.items() if c > 1}
+        required = set()
+        for p, n in F.items():
+            if n.get_meta("dc") and p[-1] not in ambiguous:
+                for i in range(1, len(p) + 1):
+                    required.add(p[:i])
+        miss = [list(p) for p in required if p not in R]
+        if miss:
+            rec.fail("L6:reduce-result-lacks-node-marked-in-unreduced-result", {"missing": miss[:3]})
+        else:
+            for p in required:
+                if p[-1] in ambiguous:
+                    continue
+                a, b = F[p].get_meta("dc"), R[p].get_meta("dc")
+                if a and a != b:
+                    rec.fail("L6:mark-differs-between-reduced-and-unreduced-result", [list(p), repr(a), repr(b)])
+                    break
+
     # ---- L4: moves ------------------------------------------------------------------------------
     here = [p for p in R if dc(p) == DC.MOVED_HERE]
     away = [p for p in R if dc(p) == DC.MOVED_TO]
